@@ -574,12 +574,329 @@ C08_Step(c, c2, g, ln) ==
             r.hit + (IF obliged THEN 1 ELSE 0))
 C08_End(c, g) == OKr(g)
 
+
+-----------------------------------------------------------------------------
+(* C06  Inbound PUBLISH: faithful delivery, QoS 2 exactly once, every packet answered *)
+\* ghost per address: held = sequence of [id, copies (set of argument records), soft]
+C06_0 == [a \in Addrs |-> <<>>]
+PArgs(p) == [topic |-> p.topic, payload |-> p.payload, qos |-> p.qos, dup |-> p.dup, retain |-> p.retain, id |-> p.id]
+CbArgs(e) == [topic |-> e.topic, payload |-> e.payload, qos |-> e.qos, dup |-> e.dup, retain |-> e.retain, id |-> e.id]
+HeldPos(h, id) == LET ps == SelectSeq([i \in 1..Len(h) |-> i], LAMBDA i : h[i].id = id) IN IF ps = <<>> THEN 0 ELSE ps[1]
+\* expected reactions to the inbound packets of a chunk: r = [h, acks (seq of <<type, id>>), cbs (seq of [set of allowed argument records, opt])]
+RECURSIVE C06_Expect(_, _, _, _)
+C06_Expect(r, inb, i, hPub) ==
+  IF i > Len(inb) THEN r ELSE
+  LET p == inb[i].p IN
+  IF p.t = "PUBLISH" THEN
+     IF p.qos = 0 THEN C06_Expect([r EXCEPT !.cbs = IF hPub = 1 THEN Append(@, [any |-> {PArgs(p)}, opt |-> FALSE]) ELSE @], inb, i + 1, hPub)
+     ELSE IF p.qos = 1 THEN C06_Expect([r EXCEPT !.acks = Append(@, <<"PUBACK", p.id>>),
+                                                  !.cbs = IF hPub = 1 THEN Append(@, [any |-> {PArgs(p)}, opt |-> FALSE]) ELSE @], inb, i + 1, hPub)
+     ELSE LET k == HeldPos(r.h, p.id)
+              h2 == IF k = 0 THEN Append(r.h, [id |-> p.id, copies |-> {PArgs(p)}, soft |-> FALSE])
+                    ELSE [r.h EXCEPT ![k].copies = @ \cup {PArgs(p)}, ![k].soft = FALSE]
+          IN C06_Expect([r EXCEPT !.h = h2, !.acks = Append(@, <<"PUBREC", p.id>>)], inb, i + 1, hPub)
+  ELSE IF p.t = "PUBREL" THEN
+     LET k == HeldPos(r.h, p.id) IN
+     C06_Expect([r EXCEPT !.h = IF k = 0 THEN @ ELSE SelectSeq(@, LAMBDA x : x.id # p.id),
+                          !.acks = Append(@, <<"PUBCOMP", p.id>>),
+                          !.cbs = IF k # 0 /\ hPub = 1 THEN Append(@, [any |-> r.h[k].copies, opt |-> r.h[k].soft]) ELSE @], inb, i + 1, hPub)
+  ELSE C06_Expect(r, inb, i + 1, hPub)
+\* actual callbacks against expected ones (optional ones may be missing)
+RECURSIVE CbMatch(_, _)
+CbMatch(exp, act) ==
+  IF exp = <<>> THEN act = <<>>
+  ELSE IF act # <<>> /\ CbArgs(act[1]) \in exp[1].any THEN CbMatch(Tail(exp), Tail(act))
+  ELSE exp[1].opt /\ CbMatch(Tail(exp), act)
+C06_Step(c, c2, g, ln) ==
+  LET s == ln.stim
+      ws == Writes(c2, ln)
+      ackw == SelectSeq(ws, LAMBDA w : w.p.t \in {"PUBACK", "PUBREC", "PUBCOMP"})
+      cbs == SelectSeq(Fx(ln, "cb"), LAMBDA e : e.name = "onPublish")
+  IN
+  IF s.op # "recv" THEN
+     \* never unprompted; a clean connect makes the held copies optional
+     LET g1 == IF s.op = "connect" /\ c2.A[s.a].st = "connecting" /\ c.A[s.a].st = "idle" /\ s.clean = 1
+               THEN [g EXCEPT ![s.a] = [i \in 1..Len(@) |-> [@[i] EXCEPT !.soft = TRUE]]] ELSE g
+     IN FirstBad(g1, << <<ackw = <<>>, "C06.unprompted_acknowledgement", <<s.op, IF ackw # <<>> THEN ackw[1].p.t ELSE "">> >>,
+                        <<cbs = <<>>, "C06.unprompted_delivery", <<s.op>> >> >>, 0)
+  ELSE
+     LET a == s.a  k == c.A[a]
+         inb == Inbound(c, ln).acc
+         relevant == SelectSeq(inb, LAMBDA x : x.p.t \in {"PUBLISH", "PUBREL"})
+         \* obliged: strictly well-formed, connected, subscribing profile, no close requested
+         obliged(x) == ~IsBad(DecodeStrict(x.raw, k.ver)) /\ x.st = "connected" /\ SubCap(ln) /\ k.tp = "open"
+         allObliged == \A i \in 1..Len(relevant) : obliged(relevant[i])
+         ex == C06_Expect([h |-> g[a], acks |-> <<>>, cbs |-> <<>>], relevant, 1, k.hPub)
+         actAcks == [i \in 1..Len(ackw) |-> <<ackw[i].p.t, ackw[i].p.id>>]
+         \* justification only (some packet was not obliging): every ack / delivery answers a packet of this chunk or a held copy
+         justAck(x) == \E i \in 1..Len(relevant) : relevant[i].p.id = x[2] /\
+                          ((x[1] = "PUBACK" /\ relevant[i].p.t = "PUBLISH" /\ relevant[i].p.qos = 1) \/ (x[1] = "PUBREC" /\ relevant[i].p.t = "PUBLISH" /\ relevant[i].p.qos = 2)
+                           \/ (x[1] = "PUBCOMP" /\ relevant[i].p.t = "PUBREL"))
+         justCb(e) == \/ \E i \in 1..Len(relevant) : relevant[i].p.t = "PUBLISH" /\ PArgs(relevant[i].p) = CbArgs(e)
+                      \/ \E i \in 1..Len(g[a]) : CbArgs(e) \in g[a][i].copies
+     IN IF allObliged
+        THEN FirstBad([g EXCEPT ![a] = ex.h],
+               << <<actAcks = ex.acks, "C06.acknowledgements_differ", <<"expected", ex.acks, "written", actAcks>> >>,
+                  <<CbMatch(ex.cbs, cbs), "C06.delivery_differs", <<"expected", Len(ex.cbs), "delivered", Len(cbs)>> >> >>, Len(relevant))
+        ELSE FirstBad([g EXCEPT ![a] = ex.h],
+               << <<\A i \in 1..Len(actAcks) : justAck(actAcks[i]), "C06.unprompted_acknowledgement", <<"recv", actAcks>> >>,
+                  <<\A i \in 1..Len(cbs) : justCb(cbs[i]), "C06.unprompted_delivery", <<"recv">> >> >>, 0)
+C06_End(c, g) == OKr(g)
+
+-----------------------------------------------------------------------------
+(* C07  subscribe()/unsubscribe(): one request per call, matched by id, window enforced *)
+\* ghost: owed = handles of requests that were pending when their connection was lost and were not failed there
+C07_0 == [owed |-> {}]
+SubKind(e) == e.op \in {"subscribe", "unsubscribe"}
+C07_Step(c, c2, g, ln) ==
+  LET s == ln.stim  rets == Fx(ln, "ret")  fires == Fx(ln, "fire")  ws == Writes(c2, ln)
+      isCall == s.op \in {"subscribe", "unsubscribe"} /\ rets # <<>>
+      d == IF isCall THEN c2.D[rets[1].d] ELSE [st |-> "none", mid |-> -1]
+      k == IF "a" \in DOMAIN s THEN c.A[s.a] ELSE NoA
+      nt == IF s.op = "subscribe" THEN SubTopics(s.arg, s.qos) ELSE IF s.op = "unsubscribe" THEN UnsubTopics(s.arg) ELSE [ok |-> FALSE, ts |-> <<>>]
+      validArgs == isCall /\ nt.ok /\ (s.op = "unsubscribe" \/ \A i \in 1..Len(nt.ts) : nt.ts[i][2] \in 0..2)
+                   /\ \A i \in 1..Len(nt.ts) : TextOK(IF s.op = "subscribe" THEN nt.ts[i][1] ELSE nt.ts[i])
+      allowed == isCall /\ AllowedOp(s.op, k.st, ln) /\ k.tp = "open"
+      npend == IF isCall THEN Cardinality({h \in 1..Len(c.D) : c.D[h].op = s.op /\ c.D[h].a = s.a /\ c.D[h].st = "pending"}) ELSE 0
+      out == IF isCall THEN Outcome(c2, ln) ELSE ""
+      accepted == isCall /\ d.st = "pending"
+      wantPkt == IF s.op = "subscribe" THEN [t |-> "SUBSCRIBE", id |-> d.mid, dup |-> 0, topics |-> nt.ts]
+                 ELSE [t |-> "UNSUBSCRIBE", id |-> d.mid, dup |-> 0, topics |-> nt.ts]
+      inb == IF s.op = "recv" THEN Inbound(c, ln).acc ELSE <<>>
+      okFires == SelectSeq(fires, LAMBDA e : e.ok = 1 /\ e.d <= Len(c.D) /\ SubKind(c.D[e.d]))
+      subFires == SelectSeq(fires, LAMBDA e : e.d <= Len(c.D) /\ SubKind(c.D[e.d]))
+      okJust(e) == LET r == c.D[e.d] IN
+                   s.op = "recv" /\ s.a = r.a /\
+                   \E i \in 1..Len(inb) : inb[i].p.id = r.mid /\
+                      IF r.op = "subscribe" THEN inb[i].p.t = "SUBACK" /\ e.val = [ty |-> "granted", v |-> inb[i].p.granted]
+                      ELSE inb[i].p.t = "UNSUBACK" /\ e.val = [ty |-> "int", v |-> r.mid]
+      \* a chunk made only of SUBACK / UNSUBACK packets whose identifiers match no pending request of the kind
+      foreignOnly == inb # <<>> /\ \A i \in 1..Len(inb) :
+                        inb[i].p.t \in {"SUBACK", "UNSUBACK"} /\
+                        ~\E h \in 1..Len(c.D) : c.D[h].st = "pending" /\ c.D[h].a = s.a /\ c.D[h].mid = inb[i].p.id
+                                                /\ c.D[h].op = (IF inb[i].p.t = "SUBACK" THEN "subscribe" ELSE "unsubscribe")
+      \* loss: pending requests of the address that are not failed in this line are owed a retransmission
+      owedNew == IF s.op = "lost" THEN {h \in 1..Len(c2.D) : SubKind(c2.D[h]) /\ c2.D[h].a = s.a /\ c2.D[h].st = "pending"} ELSE {}
+      resumeLine == s.op = "recv" /\ c.A[s.a].st = "connecting" /\ c2.A[s.a].st = "connected"
+      owedHere == {h \in g.owed : c2.D[h].a = (IF "a" \in DOMAIN s THEN s.a ELSE "") /\ c2.D[h].st = "pending"}
+      resent(h) == LET r == c2.D[h]
+                       tsr == IF r.op = "subscribe" THEN SubTopics(r.stim.arg, r.stim.qos).ts ELSE UnsubTopics(r.stim.arg).ts IN
+                   \E i \in 1..Len(ws) : ws[i].a = r.a /\ ws[i].p.t = (IF r.op = "subscribe" THEN "SUBSCRIBE" ELSE "UNSUBSCRIBE")
+                                         /\ ws[i].p.id = r.mid /\ ws[i].p.topics = tsr
+      owed2 == IF resumeLine THEN {h \in g.owed : c2.D[h].a # s.a} ELSE {h \in g.owed \cup owedNew : c2.D[h].st = "pending"}
+  IN FirstBad([owed |-> owed2],
+       << <<~accepted \/ (Len(ws) = 1 /\ ws[1].a = s.a /\ ws[1].p = wantPkt /\ d.mid >= 1), "C07.request_packet_wrong", <<s.op, d.mid>> >>,
+          <<~(validArgs /\ allowed /\ npend >= k.window) \/ (out = "MQTTWindowError" /\ NoEffect(ln)), "C07.window_not_enforced", <<s.op, npend, k.window, out>> >>,
+          <<~(validArgs /\ allowed /\ npend < k.window) \/ out # "MQTTWindowError", "C07.window_error_below_window", <<s.op, npend, k.window>> >>,
+          <<\A i \in 1..Len(subFires) : c.D[subFires[i].d].st = "pending", "C07.fired_twice", <<>> >>,
+          <<\A i \in 1..Len(okFires) : okJust(okFires[i]), "C07.success_without_matching_ack", <<IF okFires # <<>> THEN okFires[1] ELSE <<>> >> >>,
+          <<~foreignOnly \/ ln.fx = <<>>, "C07.foreign_ack_had_effect", <<>> >>,
+          <<~resumeLine \/ \A h \in owedHere : resent(h), "C07.request_neither_failed_nor_resent", <<owedHere>> >> >>,
+       (IF isCall THEN 1 ELSE 0) + Len(subFires) + (IF resumeLine /\ owedHere # {} THEN 1 ELSE 0))
+\* a drained history leaves no request pending whose connection has gone
+C07_End(c, g) == OKr(g)
+
+-----------------------------------------------------------------------------
+(* C11  Clean session: connection loss fails everything pending and nothing carries over *)
+\* ghost per address: prevClean = the connection that ended last had been opened clean
+C11_0 == [a \in Addrs |-> [prevClean |-> FALSE]]
+C11_Step(c, c2, g, ln) ==
+  LET s == ln.stim  fires == Fx(ln, "fire") IN
+  IF s.op = "lost" THEN
+    LET k == c.A[s.a]
+        opened == k.cd # 0
+        pend == {h \in 1..Len(c.D) : IsReq(c.D[h]) /\ c.D[h].a = s.a /\ c.D[h].st = "pending"}
+        failedOnce(h) == Count(fires, LAMBDA e : e.d = h) = 1 /\ \E i \in 1..Len(fires) : fires[i].d = h /\ fires[i].ok = 0 /\ LogExc(fires[i]) = s.reason
+    IN FirstBad([g EXCEPT ![s.a].prevClean = opened /\ k.clean = 1],
+         << <<~(opened /\ k.clean = 1) \/ \A h \in pend : failedOnce(h), "C11.pending_not_failed_with_reason",
+               <<{<<c.D[h].op, c.D[h].mid>> : h \in {x \in pend : ~failedOnce(x)}}>> >> >>, IF opened /\ k.clean = 1 THEN 1 + Cardinality(pend) ELSE 0)
+  ELSE
+    \* on the connection that follows a clean one every request packet belongs to a request accepted on it
+    LET ws == WritesAt(c, c2, ln)
+        carried(w) == g[w.a].prevClean /\
+                        \/ (w.cls # "" /\ w.d # 0 /\ c2.D[w.d].g < w.g)
+                        \/ (w.cls # "" /\ w.d = 0)
+                        \/ (w.p.t = "PUBLISH" /\ w.p.qos = 0 /\
+                            ~\E h \in 1..Len(c2.D) : c2.D[h].op = "publish" /\ c2.D[h].a = w.a /\ c2.D[h].g = w.g /\ c2.D[h].stim.qos.ty = "int" /\ c2.D[h].stim.qos.v = 0
+                                                     /\ c2.D[h].stim.topic.ty = "str" /\ c2.D[h].stim.topic.v = w.p.topic)
+        bad == SelectSeq(ws, carried)
+    IN FirstBad(g, << <<bad = <<>>, "C11.carried_over_to_next_connection", <<IF bad # <<>> THEN <<bad[1].p.t, bad[1].a>> ELSE <<>> >> >> >>,
+                 IF \E a \in Addrs : g[a].prevClean THEN Len(ws) ELSE 0)
+C11_End(c, g) == OKr(g)
+
+-----------------------------------------------------------------------------
+(* C12  Persistent session: in-flight publishes survive loss, resume on next connection *)
+\* ghost: R = publish requests (QoS>0): [d, a, g, tx (PUBLISH written), rel (PUBREL written)]
+C12_Step(c, c2, g, ln) ==
+  LET s == ln.stim  rets == Fx(ln, "ret")  fires == Fx(ln, "fire")  ws == WritesAt(c, c2, ln)
+      new == IF s.op = "publish" /\ rets # <<>> /\ IsPubReq(c2.D[rets[1].d]) /\ c2.D[rets[1].d].st = "pending"
+             THEN <<[d |-> rets[1].d, a |-> s.a, g |-> c.A[s.a].g, tx |-> FALSE, rel |-> FALSE, txg |-> 0]>> ELSE <<>>
+      R0 == g \o new
+      \* the state of every request BEFORE the writes of this line (used by the resume clauses)
+      wrote(x, cls) == \E i \in 1..Len(ws) : ws[i].d = x.d /\ ws[i].cls = cls
+      \* txg: the connection on which the request was last written (PUBLISH or PUBREL)
+      R1 == [i \in 1..Len(R0) |-> [R0[i] EXCEPT !.tx = @ \/ wrote(R0[i], "pub"), !.rel = @ \/ wrote(R0[i], "rel"),
+                                                 !.txg = IF wrote(R0[i], "pub") \/ wrote(R0[i], "rel") THEN c.A[R0[i].a].g ELSE @]]
+      R2 == SelectSeq(R1, LAMBDA x : Pending(c2, x.d))
+      isPubD(e) == e.d <= Len(c2.D) /\ IsPubReq(c2.D[e.d])
+      a == IF "a" \in DOMAIN s THEN s.a ELSE ""
+      k == IF a # "" THEN c.A[a] ELSE NoA
+      \* loss of a persistent connection
+      lossBad == s.op = "lost" /\ k.cd # 0 /\ k.clean = 0 /\ \E i \in 1..Len(fires) : isPubD(fires[i]) /\ c2.D[fires[i].d].a = a
+      \* CONNACK(0) of the next connection
+      resumeLine == s.op = "recv" /\ k.st = "connecting" /\ c2.A[a].st = "connected"
+      inherited == SelectSeq(g, LAMBDA x : x.a = a /\ x.g < k.g /\ Pending(c, x.d))
+      fresh == SelectSeq(g, LAMBDA x : x.a = a /\ x.g = k.g /\ Pending(c, x.d))
+      pubW(x) == SelectSeq(ws, LAMBDA w : w.d = x.d /\ w.cls = "pub")
+      relW(x) == SelectSeq(ws, LAMBDA w : w.d = x.d /\ w.cls = "rel")
+      req(x) == c.D[x.d]
+      resumeOK(x) ==
+        IF x.txg = k.g THEN pubW(x) = <<>> /\ (x.rel \/ relW(x) = <<>>)     \* already written on this connection: not again
+        ELSE IF x.rel THEN Len(relW(x)) = 1 /\ pubW(x) = <<>>
+        ELSE IF x.tx THEN /\ Len(pubW(x)) = 1 /\ relW(x) = <<>>
+                          /\ LET p == pubW(x)[1].p IN p.dup = 1 /\ p.id = req(x).mid /\ p.qos = req(x).stim.qos.v
+                                                     /\ p.topic = req(x).stim.topic.v /\ p.payload = PayloadBytes(req(x).stim.payload)
+        ELSE relW(x) = <<>> /\ Len(pubW(x)) <= 1 /\ (pubW(x) # <<>> => pubW(x)[1].p.dup = 0)
+      \* original relative order of the re-sent PUBLISH packets
+      resentIdx == [i \in 1..Len(inherited) |-> IF inherited[i].tx /\ ~inherited[i].rel /\ pubW(inherited[i]) # <<>> THEN pubW(inherited[i])[1].i ELSE 0]
+      ordered == \A i, j \in 1..Len(inherited) : (i < j /\ resentIdx[i] # 0 /\ resentIdx[j] # 0) => resentIdx[i] < resentIdx[j]
+      freshQuiet == \A i \in 1..Len(fresh) : fresh[i].tx => (pubW(fresh[i]) = <<>> /\ (fresh[i].rel \/ relW(fresh[i]) = <<>>))
+      persistentResume == resumeLine /\ k.clean = 0
+      \* a clean connection after a persistent one: what was carried over fails with MQTTSessionCleared, by the end of the CONNACK line
+      cleanResume == resumeLine /\ k.clean = 1
+      carriedCleared == \A i \in 1..Len(inherited) : c2.D[inherited[i].d].st = "fail" /\ c2.D[inherited[i].d].exc = "MQTTSessionCleared"
+      clearedFires == SelectSeq(fires, LAMBDA e : e.ok = 0 /\ LogExc(e) = "MQTTSessionCleared" /\ isPubD(e))
+      freshFailed == \E i \in 1..Len(clearedFires) : c2.D[clearedFires[i].d].g = c2.A[c2.D[clearedFires[i].d].a].g
+                                                      /\ c2.A[c2.D[clearedFires[i].d].a].st \in {"connecting", "connected"}
+                                                      /\ c2.D[clearedFires[i].d].n # ln.n /\ s.op # "connect"
+  IN FirstBad(R2,
+       << <<~lossBad, "C12.publish_deferred_fired_at_persistent_loss", <<>> >>,
+          <<~persistentResume \/ \A i \in 1..Len(inherited) : resumeOK(inherited[i]), "C12.inflight_not_resumed",
+              <<[i \in 1..Len(inherited) |-> <<req(inherited[i]).mid, inherited[i].tx, inherited[i].rel, Len(pubW(inherited[i])), Len(relW(inherited[i]))>>]>> >>,
+          <<~persistentResume \/ ordered, "C12.resumed_out_of_order", <<>> >>,
+          <<~resumeLine \/ freshQuiet, "C12.request_of_new_connection_resent", <<>> >>,
+          <<~cleanResume \/ carriedCleared, "C12.carried_over_not_cleared", <<>> >>,
+          <<~freshFailed, "C12.request_of_new_connection_failed_by_resumption", <<>> >> >>,
+       (IF resumeLine THEN 1 + Len(inherited) ELSE 0) + (IF s.op = "lost" /\ k.clean = 0 /\ k.cd # 0 THEN 1 ELSE 0))
+C12_End(c, g) == OKr(g)
+
+
+-----------------------------------------------------------------------------
+(* C15  Keepalive: PINGREQ every k seconds, abort when unanswered, silent when k=0 *)
+\* ghost per address: on (keepalive period running), last (time of the last PINGREQ, or of the CONNACK), open = times of PINGREQs
+\* not yet answered, aborted
+C15_0 == [a \in Addrs |-> [on |-> FALSE, last |-> 0, open |-> <<>>, aborted |-> FALSE]]
+C15_Step(c, c2, g, ln) ==
+  LET s == ln.stim  ws == Writes(c2, ln)
+      pings(a) == SelectSeq(ws, LAMBDA w : w.p.t = "PINGREQ" /\ w.a = a)
+      aborts(a) == \E i \in 1..Len(ln.fx) : ln.fx[i].k = "close" /\ ln.fx[i].how = "abort" /\ ln.fx[i].c[1] = a /\ ln.fx[i].c[2] = c.A[a].g
+      step(a) ==
+        LET x == g[a]  k == c.A[a]  k2 == c2.A[a]  per == 1024 * k.ka
+            inb == IF s.op = "recv" /\ s.a = a THEN Inbound(c, ln).acc ELSE <<>>
+            gotResp == \E i \in 1..Len(inb) : inb[i].p.t = "PINGRESP"
+            started == s.op = "recv" /\ s.a = a /\ k.st = "connecting" /\ k2.st = "connected"
+            ended == (s.op = "lost" /\ s.a = a) \/ (s.op = "build" /\ s.a = a)
+            \* a PINGRESP answers the PINGREQs written strictly before this instant ... received in (tp, tp + k)
+            open1 == IF gotResp THEN SelectSeq(x.open, LAMBDA tp : ~(ln.t > tp /\ ln.t < tp + per) /\ ~(ln.t = tp)) ELSE x.open
+            open2 == open1 \o [i \in 1..Len(pings(a)) |-> ln.t]
+            x2 == [on |-> IF started THEN k2.ka > 0 ELSE IF ended THEN FALSE ELSE x.on,
+                   last |-> IF pings(a) # <<>> \/ started THEN ln.t ELSE x.last,
+                   open |-> IF started THEN [i \in 1..Len(pings(a)) |-> ln.t] ELSE IF ended THEN <<>> ELSE open2,
+                   aborted |-> IF started \/ ended THEN FALSE ELSE x.aborted \/ aborts(a)]
+            live == x2.on /\ k2.st = "connected" /\ k2.tp = "open"
+            overdueOpen == \E i \in 1..Len(x2.open) : ln.t > x2.open[i] + 1024 * k2.ka
+            \* an abort decided by a timer that is not the CONNACK timeout: only if some PINGREQ has been unanswered for k seconds
+            kaAbort == s.op = "fire" /\ aborts(a) /\ x.on /\ ~\E i \in 1..Len(ln.fx) : ln.fx[i].k = "fire"
+            unanswered == \E i \in 1..Len(x.open) : ln.t >= x.open[i] + per
+            onlyResp == inb # <<>> /\ \A i \in 1..Len(inb) : inb[i].p.t = "PINGRESP"
+        IN [x |-> x2,
+            checks |->
+             << <<~live \/ ln.t - x2.last <= 1024 * k2.ka, "C15.pingreq_overdue", <<a, ln.t - x2.last, k2.ka>> >>,
+                <<~live \/ ~overdueOpen, "C15.not_aborted_after_unanswered_ping", <<a, x2.open, ln.t>> >>,
+                <<~kaAbort \/ unanswered, "C15.aborted_although_answered", <<a, x.open, ln.t>> >>,
+                <<~(k.st = "connected" /\ k.ka = 0 /\ k.cd # 0) \/ pings(a) = <<>>, "C15.pingreq_with_keepalive_off", <<a>> >>,
+                <<~(k.tp = "lost") \/ pings(a) = <<>>, "C15.pingreq_after_loss", <<a>> >>,
+                <<~onlyResp \/ (~Raised(ln) /\ ~HasFx(ln, "close") /\ ~HasFx(ln, "write")), "C15.pingresp_had_effect", <<a>> >> >>,
+            hit |-> (IF live THEN 1 ELSE 0) + Len(pings(a)) + (IF kaAbort THEN 1 ELSE 0)]
+      ra == step("A")  rb == step("B")
+  IN FirstBad([a \in Addrs |-> IF a = "A" THEN ra.x ELSE rb.x], ra.checks \o rb.checks, ra.hit + rb.hit)
+C15_End(c, g) == OKr(g)
+
+-----------------------------------------------------------------------------
+(* C16  Malformed or unexpected input is contained: no crash, no unjustified effect *)
+\* ghost: seen = argument records of every well-formed PUBLISH received so far, per address
+C16_0 == [a \in Addrs |-> {}]
+C16_Step(c, c2, g, ln) ==
+  LET s == ln.stim  fires == Fx(ln, "fire")
+      isRecv == s.op = "recv"
+      a == IF isRecv THEN s.a ELSE "A"
+      inb == IF isRecv THEN Inbound(c, ln).acc ELSE <<>>
+      wf == SelectSeq(inb, LAMBDA x : x.p.t # "malformed")
+      seen2 == IF isRecv THEN g[a] \cup {PArgs(wf[i].p) : i \in {j \in 1..Len(wf) : wf[j].p.t = "PUBLISH"}} ELSE g[a]
+      cbs == SelectSeq(Fx(ln, "cb"), LAMBDA e : e.name = "onPublish")
+      oks == SelectSeq(fires, LAMBDA e : e.ok = 1 /\ e.d <= Len(c.D))
+      okJust(e) == LET r == c.D[e.d] IN
+                   \E i \in 1..Len(wf) :
+                      CASE r.op = "connect"     -> wf[i].p.t = "CONNACK" /\ wf[i].p.code = 0
+                        [] r.op = "publish"     -> wf[i].p.t \in {"PUBACK", "PUBCOMP"} /\ wf[i].p.id = r.mid
+                        [] r.op = "subscribe"   -> wf[i].p.t = "SUBACK" /\ wf[i].p.id = r.mid
+                        [] r.op = "unsubscribe" -> wf[i].p.t = "UNSUBACK" /\ wf[i].p.id = r.mid
+                        [] OTHER -> FALSE
+      closes == Fx(ln, "close")
+      k == c.A[a]
+      leftHanging == {h \in 1..Len(c2.D) : IsReq(c2.D[h]) /\ c2.D[h].a = a /\ c2.D[h].st = "pending"}
+  IN FirstBad([g EXCEPT ![a] = seen2],
+       << <<~(s.op \in {"recv", "fire"}) \/ ~Raised(ln), "C16.exception_escapes", <<s.op, IF Raised(ln) THEN Fx(ln, "raise")[1].exc ELSE "">> >>,
+          <<~isRecv \/ \A i \in 1..Len(closes) : closes[i].how = "abort", "C16.reaction_other_than_abort", <<>> >>,
+          <<~isRecv \/ \A i \in 1..Len(cbs) : CbArgs(cbs[i]) \in seen2, "C16.unjustified_delivery", <<IF cbs # <<>> THEN cbs[1].topic ELSE <<>> >> >>,
+          <<~isRecv \/ \A i \in 1..Len(oks) : okJust(oks[i]), "C16.unjustified_success", <<IF oks # <<>> THEN c.D[oks[1].d].op ELSE "">> >>,
+          <<~(s.op = "lost" /\ k.clean = 1 /\ k.cd # 0 /\ k.tp = "aborted") \/ leftHanging = {}, "C16.request_left_hanging_after_abort", <<leftHanging>> >> >>,
+       IF isRecv THEN Len(inb) - Len(wf) + (IF \E i \in 1..Len(wf) : ~Handles(wf[i].p.t, wf[i].st, ln) THEN 1 ELSE 0) ELSE 0)
+C16_End(c, g) == OKr(g)
+
+-----------------------------------------------------------------------------
+(* C20  Invalid arguments rejected atomically with ValueError/TypeError; valid accepted *)
+\* ghost: the projected state after the previous line (timers, protocol.state, pending Deferreds)
+C20_0 == [timers |-> <<>>, state |-> <<>>, pending |-> <<>>, has |-> FALSE]
+C20_Step(c, c2, g, ln) ==
+  LET s == ln.stim
+      g2 == [timers |-> ln.post.timers, state |-> ln.post.state, pending |-> ln.post.pending, has |-> TRUE]
+      k == IF "a" \in DOMAIN s THEN c.A[s.a] ELSE NoA
+      isSet == s.op = "set" /\ s.what \in {"window", "timeout", "bandwith"}
+      isApi == s.op \in ApiOps
+      \* in range per the documented ranges
+      argOK == CASE isSet -> SetCheck(s.what, s.v, s.v2) = "ok"
+                 [] s.op = "connect" -> ConnectCheck(ConnArgs(s)) = "ok"
+                 [] s.op = "publish" -> PublishCheck(PubArgs(s))[1] = "ok"
+                 [] s.op = "subscribe" -> LET nt == SubTopics(s.arg, s.qos) IN
+                                          nt.ok /\ (\A i \in 1..Len(nt.ts) : nt.ts[i][2] \in 0..2 /\ TextOK(nt.ts[i][1]))
+                 [] s.op = "unsubscribe" -> LET nt == UnsubTopics(s.arg) IN nt.ok /\ \A i \in 1..Len(nt.ts) : TextOK(nt.ts[i])
+                 [] OTHER -> TRUE
+      npend == IF s.op \in {"subscribe", "unsubscribe"} THEN Cardinality({h \in 1..Len(c.D) : c.D[h].op = s.op /\ c.D[h].a = s.a /\ c.D[h].st = "pending"}) ELSE 0
+      judged == (isSet /\ k.st # "none") \/ (isApi /\ AllowedOp(s.op, k.st, ln) /\ k.tp = "open" /\ k.st \in {"idle", "connecting", "connected"}
+                                             /\ npend < k.window)
+      out == IF isApi THEN Outcome(c2, ln) ELSE IF Raised(ln) THEN LogExc(Fx(ln, "raise")[1]) ELSE "none"
+      refused == out \in {"ValueError", "TypeError"}
+      unchanged == /\ NoEffect(ln) /\ ~HasFx(ln, "cancel") /\ ~HasFx(ln, "cb")
+                   /\ (g.has => (ln.post.timers = g.timers /\ ln.post.state = g.state /\ ln.post.pending = g.pending))
+                   /\ \A i \in 1..Len(ln.fx) : ln.fx[i].k \in {"raise", "ret", "fire"}
+                   /\ \A i \in 1..Len(ln.fx) : ln.fx[i].k = "fire" => ln.fx[i].d > Len(c.D)
+  IN FirstBad(g2,
+       << <<~(judged /\ ~argOK) \/ refused, "C20.invalid_argument_not_refused", <<s.op, out>> >>,
+          <<~(judged /\ ~argOK) \/ unchanged, "C20.refusal_not_atomic", <<s.op>> >>,
+          <<~(judged /\ argOK) \/ ~refused, "C20.valid_argument_refused", <<s.op, out>> >> >>,
+       IF judged /\ ~argOK THEN 1 ELSE 0)
+C20_End(c, g) == OKr(g)
+
 -----------------------------------------------------------------------------
 (* engine *)
-Gh0 == CASE Prop = "C18" -> C18_0 [] Prop = "C14" -> <<>> [] Prop = "C04" -> C04_0 [] Prop = "C05" -> C05_0 [] Prop = "C10" -> C10_0 [] Prop = "C13" -> C13_0 [] OTHER -> <<>>
+Gh0 == CASE Prop = "C18" -> C18_0 [] Prop = "C14" -> <<>> [] Prop = "C04" -> C04_0 [] Prop = "C05" -> C05_0 [] Prop = "C10" -> C10_0 [] Prop = "C13" -> C13_0 [] Prop = "C06" -> C06_0 [] Prop = "C07" -> C07_0 [] Prop = "C11" -> C11_0 [] Prop = "C15" -> C15_0 [] Prop = "C16" -> C16_0 [] Prop = "C20" -> C20_0 [] OTHER -> <<>>
 PropStep(c, c2, g, ln) ==
   CASE Prop = "C18" -> C18_Step(c, c2, g, ln) [] Prop = "C14" -> C14_Step(c, c2, g, ln)
     [] Prop = "C04" -> C04_Step(c, c2, g, ln) [] Prop = "C05" -> C05_Step(c, c2, g, ln)
+    [] Prop = "C06" -> C06_Step(c, c2, g, ln) [] Prop = "C07" -> C07_Step(c, c2, g, ln)
+    [] Prop = "C11" -> C11_Step(c, c2, g, ln) [] Prop = "C12" -> C12_Step(c, c2, g, ln)
+    [] Prop = "C15" -> C15_Step(c, c2, g, ln) [] Prop = "C16" -> C16_Step(c, c2, g, ln) [] Prop = "C20" -> C20_Step(c, c2, g, ln)
     [] Prop = "C13" -> C13_Step(c, c2, g, ln) [] Prop = "C08" -> C08_Step(c, c2, g, ln)
     [] Prop = "C10" -> C10_Step(c, c2, g, ln) [] Prop = "C09" -> C09_Step(c, c2, g, ln) [] Prop = "C17" -> C17_Step(c, c2, g, ln)
     [] OTHER -> OKr(g)
